@@ -1,6 +1,6 @@
 """C11 — Packets are parsed independently; generators and definitions do not interfere.
 
-Kernel E-hist + interleavings.  (i) every stream of <= 4 packets (quick tier: every other stream of 4) over a 12-packet palette (two
+Kernel E-hist + interleavings.  (i) every stream of <= 4 packets (quick tier: every other stream of 4) over a 13-packet palette (two
 recognised APIDs with different layouts, an unrecognised APID, a too-long and a too-short packet)
 under all 8 option combinations equals the concatenation of the per-packet solo results; (ii) every
 lattice-path interleaving of next() calls over 2 (and 3) generators sharing one definition gives
@@ -51,6 +51,8 @@ def the_doc():
         Container("B", (("p", "B_F"), ("p", "B_E"), ("p", "B_P"), ("p", "B_S")), base="CCSDSPacket", criteria=(Cmp("PKT_APID", "==", "2"),)),
         Container("S", (("p", "S_BYTE"),), base="CCSDSPacket", criteria=(Cmp("PKT_APID", "==", "4"),)),
         Container("Z", (("p", "Z_E"),), base="CCSDSPacket", criteria=(Cmp("PKT_APID", "==", "5"),)),
+        # a packet type whose definition ends inside a byte (3 bits of the one data byte): 5 bits are left over, which is a length mismatch
+        Container("N", (("p", "A_LEN"),), base="CCSDSPacket", criteria=(Cmp("PKT_APID", "==", "7"),)),
         # a CONCRETE container with two children whose criteria overlap at Q_B == 2: that packet fits both and is not recognised
         Container("Q", (("p", "Q_B"),), base="CCSDSPacket", criteria=(Cmp("PKT_APID", "==", "6"),)),
         Container("QA", (), base="Q", criteria=(Cmp("Q_B", ">=", "1"),)),
@@ -80,10 +82,12 @@ def palette_packets():
     z_pos = framing.mk_packet(bytes.fromhex("00000000"), apid=5, seqcount=50)
     z_neg = framing.mk_packet(bytes.fromhex("80000000"), apid=5, seqcount=51)
     q_amb = framing.mk_packet(b"\x02", apid=6, seqcount=60)     # fits QA and QB
-    return [a_clean, b_clean, unrec, a_long, a_short, unrec_same_apid, a_raising, seg_first, seg_last, z_pos, z_neg, q_amb]
+    n_bits = framing.mk_packet(b"\xa0", apid=7, seqcount=70)      # 3 of its 8 data bits are described
+    return [a_clean, b_clean, unrec, a_long, a_short, unrec_same_apid, a_raising, seg_first, seg_last, z_pos, z_neg, q_amb, n_bits]
 
 
 AMBIGUOUS_INDEX = 11
+SUBBYTE_INDEX = 12
 
 
 def obs_item(p):
@@ -148,6 +152,14 @@ def _task_streams(task):
                 # "on its own": a fresh definition object per packet, so that nothing an earlier packet left behind can leak in
                 fresh = load_doc(doc) if task["via"] == "xml" else build_objects(doc)
                 solo[(oi, pi)] = run_stream(fresh, p, opts)[0]
+                if pi == SUBBYTE_INDEX and not opts["ccsds_headers_only"] and "root_container_name" not in opts:
+                    # absolute: a packet with undescribed bits left in its last byte is a bad packet - withheld when those are excluded
+                    kinds = [x[0] for x in solo[(oi, pi)]]
+                    want_kinds = ["packet"] if opts["parse_bad_pkts"] else []
+                    t.evals += 1
+                    if kinds != want_kinds:
+                        t.violation({"kind": "sub-byte-leftover-not-a-mismatch", "opts": oi}, {"seq": [pi], "opts": opts, "via": task["via"], "subbyte": True},
+                                    expected=want_kinds, observed=kinds, note="a packet whose definition ends inside its last byte is length-mismatched")
                 if pi == AMBIGUOUS_INDEX and not opts["ccsds_headers_only"] and "root_container_name" not in opts:
                     # an absolute expectation (the comparison with the stream is relative): a packet that fits two children is reported
                     # as an error object when asked for, and not at all otherwise
@@ -295,6 +307,7 @@ def stream_specs():
         ("S4", s4, {"combine_segmented_packets": True, "yield_unrecognized_packet_errors": True}, "bytes"),
         ("S5", b"".join(pal[i] for i in (3, 2, 1)), {"yield_unrecognized_packet_errors": True, "buffer_read_size_bytes": 5}, "socket"),
         ("S7", b"".join(pal[i] for i in (0, 2, 1)), {"yield_unrecognized_packet_errors": True, "root_container_name": "RAWDUMP"}, "bytes"),
+        ("S8", s3 + s3, {"combine_segmented_packets": True, "secondary_header_bytes": 1}, "bytes"),
     ]
 
 
@@ -568,10 +581,10 @@ def run(ctx):
         "transitions": tally.transitions,
         "traces_validated_against_impl": tally.traces,
         "exhaustive": True,
-        "bound": (f"(i) every stream of <= 4 packets (quick tier: every other stream of 4) over a 12-packet palette ({len(seqs)} streams) x all 8 combinations of parse_bad_pkts / "
+        "bound": (f"(i) every stream of <= 4 packets (quick tier: every other stream of 4) over a 13-packet palette ({len(seqs)} streams) x all 8 combinations of parse_bad_pkts / "
                   "yield_unrecognized_packet_errors / ccsds_headers_only (+ 2 with root_container_name naming a stand-alone container for that call, + 2 headers-only runs with combine_segmented_packets; "
                   "every stream of <= 3 packets over FIRST/LAST segments whose counts follow on or differ by 1025 / 4097 / wrap, with combine_segmented_packets) "
-                  "vs. per-packet solo results on fresh definitions; (ii) k=2: every ordered pair of 7 generators "
+                  "vs. per-packet solo results on fresh definitions; (ii) k=2: every ordered pair of 8 generators "
                   "(two with combine_segmented_packets, one over a scripted socket, one with a per-call root container) x ALL lattice-path interleavings of their next() calls up to exhaustion, and one generator abandoned (closed, or dropped and collected) after every number of items while the other runs on; "
                   f"k=3: {len(triples)} triples with <= {2 if ctx.quick else 3} steps each, all interleavings; (iii) definition canon + written XML unchanged; "
                   "(iv) package footprint unchanged, and the caller's warnings filter list back in force once all generators of an interleaving have finished (the caller records every warning, or - every other combination - turns every warning into an error); (vi) kernel E-thread: one definition decoding two packets on two real threads at once, every ordered pair of palette packets, every interleaving of their packet accesses with at most "
